@@ -118,8 +118,26 @@ def spacingResult (items : List (Kind × Nat)) : List Nat :=
     | [] => []
     | _ :: r => 0 :: r
 
+/-- the kinds handled by the last arm of `spacingRule` (`max_one_either_side`) -/
+def isOtherKind : Kind → Bool
+  | .tOp _ | .tComment _ | .tCompilerDirective | .tConditionalDirective _ | .tKeyword _ | .tIdentifier => false
+  | _ => true
+
+/-- The `(kind, spaces_before)` view that `TokenSpacing` has of the tokens.  `max_one_either_side`
+    reads the next token's `spaces_before` as one when that token is on another line
+    (`newlines_before > 0`); the value is written to the next token unless it is the end-of-file token,
+    and nothing else reads it before it is overwritten, so this is the same as raising the entry of
+    such a token to at least one. -/
+def spacingItemsGo (prevOther : Bool) : FT → List (Kind × Nat)
+  | [] => []
+  | t :: r =>
+    let sp := if prevOther && decide (t.fmt.nl > 0) && !(t.tok.kind == .tEof) then max t.fmt.sp 1 else t.fmt.sp
+    (t.tok.kind, sp) :: spacingItemsGo (isOtherKind t.tok.kind) r
+
+def spacingItems (ft : FT) : List (Kind × Nat) := spacingItemsGo false ft
+
 def tokenSpacing (ft : FT) : FT :=
-  let res := spacingResult (ft.map fun t => (t.tok.kind, t.fmt.sp))
+  let res := spacingResult (spacingItems ft)
   ft.zipIdx.map fun (t, i) => { t with fmt := { t.fmt with sp := res.getD i t.fmt.sp } }
 
 /-! ### LowercaseKeywords -/
